@@ -30,3 +30,18 @@ func verifYield(point string) {
 		f(point)
 	}
 }
+
+// VerifSync, when set, is told about lock operations of this package. The
+// calls are not part of this source tree: a deterministic simulator inserts
+// them around Lock/Unlock/Once.Do statements in an instrumented copy, so that
+// it can keep a goroutine that would block on a held lock parked instead of
+// letting it block for real. op is "lock", "rlock", "unlock", "runlock",
+// "once" or "onced"; name is the text of the lock expression and root the
+// value it is reached from (together they identify the lock).
+var VerifSync func(op, name string, root any)
+
+func verifSync(op, name string, root any) {
+	if f := VerifSync; f != nil {
+		f(op, name, root)
+	}
+}
